@@ -3,6 +3,7 @@
 from __future__ import annotations
 
 import ast
+import re
 import copy
 from dataclasses import dataclass
 from typing import Any, Dict, List, Optional, Tuple
@@ -270,6 +271,9 @@ class WriterNumbers:
         t = norm(e)
         if t == "self.project.read()":
             return "project"
+        m_ = re.fullmatch(r"self\.(\w+)\.read\(\)", t)
+        if m_:
+            return m_.group(1)            # Container.read(): the object's own serialisation (write_to into a buffer)
         if t.startswith("self.data"):
             return "data"
         if "label" in t:
@@ -290,6 +294,11 @@ class WriterNumbers:
         ch = attr_chain(e)
         if ch and ch[0] == "self" and len(ch) == 2:
             return ch[1]
+        # a record assembled in the writer (any buffer / join spelling): named after the writer that assembles it
+        if fn.name == "global_config_chunks" and not isinstance(e, (ast.Attribute, ast.Name)):
+            return "instrument"
+        if fn.name == "sample_chunks" and not isinstance(e, (ast.Attribute, ast.Name)):
+            return "sample_meta"
         return t
 
     def delegate(self, e: ast.expr, fn, owner, env, guard, lists):
@@ -764,7 +773,12 @@ def body_target(body, repo=None, ci=None) -> str:
                 if repo is not None and ci is not None:
                     r2 = repo.lookup(ci, m)
                     if r2 is not None and r2[1] == "method":
-                        inner = body_target(stmts_of(r2[2]), repo, ci)
+                        from . import inline as _inl2
+                        try:
+                            hb = _inl2.normalize(repo, r2[0], r2[2], aliases=True)
+                        except Exception:
+                            hb = r2[2]
+                        inner = body_target(stmts_of(hb), repo, ci)
                         if not inner.startswith("?"):
                             return inner
                 return m
